@@ -20,8 +20,10 @@ TYPE_STR = {"int": "int", "string": "string", "tuple": "(int, bool)", "array": "
 
 
 class ScopeGen:
-    def __init__(self, r, nonascii=True):
+    def __init__(self, r, nonascii=True, plant_unresolved=False):
         self.r = r
+        self.plant = plant_unresolved
+        self.planted = None     # (lo, hi, name): a use of a name that is NOT visible there
         self.out = []          # pieces of text
         self.pos = 0           # byte position
         self.uid = 100
@@ -105,6 +107,15 @@ class ScopeGen:
                 break
             self.fuel -= 1
             self.comment(ind)
+            if self.plant and self.planted is None and r.chance(12):
+                hidden = [n for n in NAMES if self.lookup(n) is None]
+                if hidden:
+                    name = r.choice(hidden)
+                    self.w(ind + "println(")
+                    lo = self.pos
+                    self.w(name)
+                    self.planted = (lo, self.pos, name)
+                    self.w(")\n")
             k = r.below(100)
             vis = [n for n, d in self.visible_names().items() if d.kind != "fn"]
             if k < 30:
@@ -327,5 +338,5 @@ class ScopeGen:
         for n in vis[:2]:
             self.emit_use(n, "", True)
         src = "".join(self.out)
-        return {"src": src, "uses": self.uses, "decls": self.decls, "expect": "".join(x + "\n" for x in self.expect_out),
+        return {"src": src, "planted": self.planted, "uses": self.uses, "decls": self.decls, "expect": "".join(x + "\n" for x in self.expect_out),
                 "features": sorted(self.features)}
